@@ -55,8 +55,9 @@ impl PortRange {
                 }
             }
             Self::Range(start, end) => {
-                let port_count = end - start + 1;
-                if count != port_count {
+                // a range such as 0-65535 spans more ports than fit into a u16
+                let port_count = u32::from(end.saturating_sub(*start)) + 1;
+                if u32::from(count) != port_count {
                     error!("The count ({count}) does not match the number of ports ({port_count})");
                     return Err(eyre!(
                         "The count ({count}) does not match the number of ports ({port_count})"
